@@ -74,8 +74,9 @@ def ref_digests(coin, tx, idx, code, amount, ht):
         wit = S.digest_be(S.sighash_bip143(tx, idx, code, amount, ht, h=S.sha256, hfinal=S.sha256))
     elif coin in FORKID:
         full = ht | (FORKID[coin] << 8)
-        wit = S.digest_be(S.sighash_bip143(tx, idx, code, amount, full))
-        leg = wit if ht & 0x40 else "refuse"
+        # the fork-id bit is mandatory at both entry points (witness programs too on BTG)
+        wit = S.digest_be(S.sighash_bip143(tx, idx, code, amount, full)) if ht & 0x40 else "refuse"
+        leg = wit
     else:
         leg = S.digest_be(S.sighash_legacy(tx, idx, code, ht))
         wit = S.digest_be(S.sighash_bip143(tx, idx, code, amount, ht))
@@ -133,6 +134,8 @@ class Digests(Driver):
                     g1 = "EXC %s" % type(e).__name__
                 try:
                     g2 = sc._signature_for_hash_type_segwit(code, idx, ht)
+                except sc.ScriptError:
+                    g2 = "refuse"
                 except Exception as e:
                     g2 = "EXC %s" % type(e).__name__
                 nref += 2
@@ -180,6 +183,8 @@ class Digests(Driver):
                 g1 = "EXC %s" % type(e).__name__
             try:
                 g2 = sc._signature_for_hash_type_segwit(code, idx, ht)
+            except sc.ScriptError:
+                g2 = "refuse"
             except Exception as e:
                 g2 = "EXC %s" % type(e).__name__
             if g1 != leg or g2 != wit:
@@ -278,6 +283,8 @@ class Closures(Driver):
             g1 = "EXC %s" % type(e).__name__
         try:
             g2 = sc._make_witness_sighash_f(idx)(ht, blobs, vm)
+        except sc.ScriptError:
+            g2 = "refuse"
         except Exception as e:
             g2 = "EXC %s" % type(e).__name__
         if g1 == leg and g2 == wit:
